@@ -167,10 +167,10 @@ def fk5_deltas (jde lon lat : Num) : Num × Num :=
   let delta_beta := angDms 0 0 delta_beta
   (delta_lon, delta_beta)
 
-/-- the `if tofk5:` block: `lon += delta_lon; lat += delta_beta` -/
+/-- the `if tofk5:` block: `lon += delta_lon; lon.to_positive(); lat += delta_beta` -/
 def fk5_correction (jde lon lat : Num) : Num × Num :=
   let d := fk5_deltas jde lon lat
-  (angAdd lon d.1, angAdd lat d.2)
+  (angToPositive (angAdd lon d.1), angAdd lat d.2)
 
 def geometric_vsop_pos (jde : Num) (vsop_l vsop_b vsop_r : VsopTable) (tofk5 : Bool) : PyRes (Num × Num × Num) :=
   match vsop_pos jde vsop_l vsop_b vsop_r with
@@ -241,9 +241,9 @@ def apparent_vsop_pos (jde : Num) (vsop_l vsop_b vsop_r : VsopTable) (nutation :
     let lon := if nutation then angAdd lon (nutation_longitude jde) else lon
     -- delta = -20.4898 / r        (ZeroDivisionError when r == 0.0)
     if peq r 0.0 then .error .zeroDivisionError else
-    -- delta = Angle(0, 0, delta); lon += delta
+    -- delta = Angle(0, 0, delta); lon += delta; lon.to_positive()
     let delta := angDms 0 0 (-20.4898 / r)
-    .ok (angAdd lon delta, lat, r)
+    .ok (angToPositive (angAdd lon delta), lat, r)
 
 /-! ### `orbital_elements` (Coordinates.py:2843) -/
 
